@@ -329,6 +329,10 @@ def main(argv):
             r = mod.run(ctx)
         except Exception:
             r = {"name": cname, "error": traceback.format_exc()[-3000:]}
+        finally:
+            simmod = sys.modules.get("harness.sim")
+            if simmod is not None:
+                simmod.restore_runtime()      # no component inherits a simulator's virtual clock
         r.setdefault("name", cname)
         comp_results.append(r)
         if r.get("error"):
@@ -436,7 +440,8 @@ def main(argv):
         },
         "assumptions": spec.get("assumptions", []),
     }
-    write_json(os.path.join(VERIF, "evidence", pid + ".json"), ev)
+    if not (a.skip_lean or a.only):      # debugging modes do not touch the evidence file
+        write_json(os.path.join(VERIF, "evidence", pid + ".json"), ev)
     ctx.cleanup()
     print("check %s tier=%s seed=%d: theorems %d/%d, components %d, cases %d, rc=%d, %.1fs"
           % (pid, a.tier, seed, lean["discharged"], lean["obligations"], len(comp_results), total_cases, rc, wall))
